@@ -18,6 +18,9 @@ structure ResGroup where
   attrs : Obj := []
   status : StatusRec := .absent
   lastPixel : Option Int := none          -- legacy attribute `last_pixel`
+  /-- within the file of the dataset, the group's `source_000` points at ANOTHER dataset (one that merely
+      carries the same name): `find_results_groups` leaves such a group out -/
+  otherSource : Bool := false
 deriving Repr
 
 inductive Class | dup | part | skip
@@ -43,7 +46,7 @@ def classify (n : Nat) (g : ResGroup) : Class × ResGroup :=
 
 /-- `check_for_old`: groups named for exactly this (dataset, tool) whose stored parameters match -/
 def matching (groups : List ResGroup) (dset tool : Str) (parms : Dict) : List ResGroup :=
-  groups.filter (fun g => g.isGroup && (indexOf (resultsPrefix dset tool) g.name).isSome &&
+  groups.filter (fun g => g.isGroup && !g.otherSource && (indexOf (resultsPrefix dset tool) g.name).isSome &&
     matchAll g.attrs parms)
 
 inductive Decision
@@ -67,7 +70,7 @@ def decision (groups : List ResGroup) (dset tool : Str) (parms : Dict) (n : Nat)
 /-- the groups as the constructor leaves them -/
 def afterConstruct (groups : List ResGroup) (dset tool : Str) (parms : Dict) (n : Nat) : List ResGroup :=
   groups.map (fun g =>
-    if g.isGroup && (indexOf (resultsPrefix dset tool) g.name).isSome && matchAll g.attrs parms
+    if g.isGroup && !g.otherSource && (indexOf (resultsPrefix dset tool) g.name).isSome && matchAll g.attrs parms
     then (classify n g).2 else g)
 
 /-- every position is marked complete -/
